@@ -841,6 +841,10 @@ class UpdateBase(
         self._returning += tuple(
             coercions.expect(roles.ColumnsClauseRole, c) for c in cols
         )
+        # collections memoized from the previous RETURNING list come along
+        # with the copy made by @_generative
+        self.__dict__.pop("_all_selected_columns", None)
+        self.__dict__.pop("exported_columns", None)
         if sort_by_parameter_order:
             if not self.is_insert:
                 raise exc.ArgumentError(
